@@ -368,6 +368,37 @@ var genScenarios = map[string]func(g *Gen) []scriptStep{
 			ackLeased(sS0, "Nack", 0, false), pastLeases(sS0), pullStep(sS0, 10))
 		return s
 	},
+	// one dead-letter topic shared by two source subscriptions (the same message is forwarded
+	// twice into the dead-letter subscription, the second time while the first copy is still
+	// outstanding), or a subscription whose dead-letter topic is its own topic (the forward
+	// lands on the subscription that is dead-lettering): every forward creates its delivery (C06)
+	"dl-shared-target": func(g *Gen) []scriptStep {
+		if g.chance(0.35) {
+			return []scriptStep{
+				opStep(&Op{Kind: "CreateTopic", Name: sT0}),
+				subStep(&SubReq{Name: sS0, Topic: sT0, DL: dl(sT0, 1), Retry: retry(time.Second)}),
+				subStep(&SubReq{Name: sS1, Topic: sT0}),
+				pubStep(sT0, "", "k1"), pullStep(sS0, 10), pastLeases(sS0), pullStep(sS0, 10), pullStep(sS1, 10), pullStep(sS0, 10),
+				pastLeases(sS0), pullStep(sS0, 10),
+			}
+		}
+		return []scriptStep{
+			opStep(&Op{Kind: "CreateTopic", Name: sT0}), opStep(&Op{Kind: "CreateTopic", Name: sT1}),
+			subStep(&SubReq{Name: sS0, Topic: sT0, DL: dl(sT1, 1), Retry: retry(time.Second)}),
+			subStep(&SubReq{Name: sS1, Topic: sT0, DL: dl(sT1, 1), Retry: retry(time.Second), Ordered: g.chance(0.3)}),
+			subStep(&SubReq{Name: sS2, Topic: sT1}),
+			pubStep(sT0, "", "k1"), pullStep(sS0, 10), pullStep(sS1, 10), pastLeases(sS0),
+			pullStep(sS0, 10), // dead-letters both messages: first copies arrive on s2
+			func(g *Gen, d *Dump, vnow int64) Action {
+				if g.chance(0.5) {
+					return Action{Op: &Op{Kind: "Pull", Name: sS2, Max: 1}} // one copy leased, one untouched
+				}
+				return Action{Op: &Op{Kind: "Job", Job: "DeadLetterSweep", MaxN: 10}} // s1's turn, by the sweep
+			},
+			pullStep(sS1, 10), // second copies of the same messages, while the first are outstanding
+			pullStep(sS2, 10), ackLeased(sS2, "Ack", 0, false), pullStep(sS2, 10),
+		}
+	},
 	"ordered-replay": func(g *Gen) []scriptStep {
 		return []scriptStep{
 			opStep(&Op{Kind: "CreateTopic", Name: sT0}),
@@ -507,7 +538,7 @@ var genScenarios = map[string]func(g *Gen) []scriptStep{
 	},
 }
 
-var scenarioNames = []string{"ordered-replay", "ordered-prune", "nack-mixed-attempts", "dl-deleted-topic", "dl-ordered-target", "dl-filtered-target", "snapshot-bystander", "seek-revive-late", "idle-expired-live", "filter-replaced", "ordered-chain", "lease-changes"}
+var scenarioNames = []string{"ordered-replay", "ordered-prune", "nack-mixed-attempts", "dl-shared-target", "dl-deleted-topic", "dl-ordered-target", "dl-filtered-target", "snapshot-bystander", "seek-revive-late", "idle-expired-live", "filter-replaced", "ordered-chain", "lease-changes"}
 
 // scenariosFor lists the templates a generator profile may start with
 func scenariosFor(profile string) []string {
@@ -522,7 +553,7 @@ func scenariosFor(profile string) []string {
 		return []string{"filter-replaced", "idle-expired-live", "config-reset-each-field", "config-reset-each-field"}
 	case "c15":
 		// no reviving seeks in the paired histories
-		return []string{"ordered-prune", "dl-deleted-topic", "dl-ordered-target", "dl-filtered-target", "idle-expired-live", "filter-replaced"}
+		return []string{"ordered-prune", "dl-shared-target", "dl-deleted-topic", "dl-ordered-target", "dl-filtered-target", "idle-expired-live", "filter-replaced"}
 	}
 	return nil
 }
